@@ -255,6 +255,33 @@ def check(acc, s: Sys, S, seed, broken, use_global):
             member_check(acc, s, info, idx, one, case, sig, text)
         elif st3 == "raise" and "updating stopped" not in repr(one):
             acc.violation("generate_raises", f"System({text!r}).generate() raised {one!r} on a generable system", case, {**sig, "error": type(one).__name__}, size=len(text))
+    # the same object is iterated again (after a complete and after an abandoned iteration): the ensemble must again run up to
+    # the system mass - nothing may be carried over from an earlier iteration
+    if not problems and members:
+        with probe.tag_residues(idx):
+            it_ab = iter(probe.system_generator(obj, probe.CountingRNG(seed + 3)))
+            probe.guarded(lambda: next(it_ab), seconds=120)  # abandoned after one molecule
+            tot2, last2, n2, bad2 = 0.0, 0.0, 0, None
+            it2 = iter(probe.system_generator(obj, probe.CountingRNG(seed + 2)))
+            for step in range(100000):
+                st_, mg = probe.guarded(lambda: next(it2), seconds=120)
+                if st_ == "raise" and isinstance(mg, StopIteration):
+                    break
+                if st_ != "ok":
+                    bad2 = "dropped" if (st_ == "timeout" or "updating stopped" in repr(mg)) else f"raised {mg!r}"
+                    break
+                try:
+                    last2 = float(mg.weight)
+                except Exception:  # noqa: BLE001
+                    last2 = float("nan")
+                tot2 += last2
+                n2 += 1
+        if bad2 is None:
+            if not (n2 > 0 and tot2 >= Sobj and tot2 - last2 < Sobj):
+                acc.violation("second_iteration", f"System({text!r}) S={Sobj}: iterating the same object again yields {n2} molecules with total mass {tot2} "
+                              f"(before the last one {tot2 - last2}); the first iteration gave {len(members)} molecules / {sum(members)}", case, sig, size=len(text))
+        elif bad2 != "dropped":
+            acc.violation("second_iteration", f"System({text!r}): iterating the same object again {bad2}", case, sig, size=len(text))
     total = sum(members)
     if not problems:
         if not members:
